@@ -195,3 +195,21 @@ Qed.
 
 Theorem dmatch_re_spec : forall r s, dmatch_re r s = true <-> Lre r s.
 Proof. intros r s. unfold dmatch_re. rewrite dmatch_spec. apply core_spec. Qed.
+
+(** T11_quantifier at the level of the specification: the expansion used for {n,m} (n copies followed by m-n nested
+    options, the shape compileClosure builds) and for {n,} (n copies followed by a star) denotes the n..m-fold power *)
+Lemma quant_expand_bounded : forall a n m s, (n <= m)%nat ->
+  (Lc (KCat (kpow (core a) n) (kopt (core a) (m - n))) s <->
+   exists ss, s = concat ss /\ Forall (Lre a) ss /\ (n <= length ss)%nat /\ (length ss <= m)%nat).
+Proof.
+  intros a n m s H. pose proof (core_spec (RRep n (Some m) a) s) as C. cbn [core Lre le_opt] in C.
+  assert (E : Nat.ltb m n = false) by (apply Nat.ltb_ge; exact H). rewrite E in C. exact C.
+Qed.
+
+Lemma quant_expand_unbounded : forall a n s,
+  (Lc (KCat (kpow (core a) n) (KStar (core a))) s <->
+   exists ss, s = concat ss /\ Forall (Lre a) ss /\ (n <= length ss)%nat).
+Proof.
+  intros a n s. pose proof (core_spec (RRep n None a) s) as C. cbn [core Lre le_opt] in C. rewrite C.
+  split; intros [ss [E [F L]]]; exists ss; tauto.
+Qed.
